@@ -200,8 +200,30 @@ pub fn generate(rng: &mut Rng, prop: Prop) -> Scenario {
         first.extend(rng.bytes(12));
         s.push(Item::new("rec").int("type", 22).int("ver", 0x0303).bytes("data", &first));
         let chunk = *rng.pick(&[16384usize, 16640, 16000, 9000]);
-        let reps = MAX_DATA / chunk + rng.urange(0, 3);
-        s.push(Item::new("rec").int("type", 22).int("ver", 0x0303).int("fill", rng.u8() as u64).int("n", chunk as u64).int("rep", reps as u64));
+        // stay just below the cap, let a cap-crossing FOREIGN record arrive (must be refused for its
+        // type, not its size), then cross the cap with same-type records
+        let below = (MAX_DATA - 1 - first.len()) / chunk;
+        let d = rng.urange(0, 2).min(below);
+        let fill = rng.u8() as u64;
+        s.push(Item::new("rec").int("type", 22).int("ver", 0x0303).int("fill", fill).int("n", chunk as u64).int("rep", (below - d) as u64));
+        if rng.chance(2, 3) {
+            let ft = *rng.pick(&[23u64, 24, 21, 20, 0x55]);
+            s.push(Item::new("rec").int("type", ft).int("ver", 0x0303).int("fill", 1).int("n", chunk as u64));
+        }
+        if rng.chance(1, 3) {
+            let mut it = foreign_record(rng, 0);
+            it.kind = "nocopy".into();
+            s.push(it);
+        }
+        // keep feeding after the refusal: a peer does not stop because the monitor said TooLarge
+        let after = if rng.chance(1, 2) { rng.urange(400, 700) } else { rng.urange(1, 3) };
+        s.push(Item::new("rec").int("type", 22).int("ver", 0x0303).int("fill", fill).int("n", chunk as u64).int("rep", (d + after) as u64));
+        if rng.chance(1, 2) {
+            // a small fragment that still fits after larger ones were refused
+            let room = MAX_DATA.saturating_sub(first.len() + (below - d) * chunk + d * chunk);
+            let n = room.min(rng.urange(1, 400));
+            s.push(Item::new("rec").int("type", 22).int("ver", 0x0303).int("fill", 7).int("n", n as u64));
+        }
         s.push(Item::new("rec").int("type", 21).int("ver", 0x0303).bytes("data", &[2, 40]));
         s.push(Item::new("rec").int("type", 22).int("ver", 0x0303).bytes("data", &rng.bytes(5)));
         if rng.chance(1, 2) {
@@ -502,6 +524,8 @@ pub fn execute(scn: &Scenario, ctx: &mut Ctx) {
             if rec_len <= 16640 && parser.verif_defrag_buffer().len() >= MAX_DATA {
                 let l = parser.verif_defrag_buffer().len();
                 ctx.violate(Prop::C07, "defrag-model/cap", || format!("op {}: defragmentation buffer holds {} bytes (>= 10 MiB)", opno, l));
+                // C01: retained heap is bounded by the documented 10 MiB buffer
+                ctx.violate(Prop::C01, "heap/defragmenter-buffer", || format!("op {}: after a call fed with a {}-byte record the defragmenter retains {} bytes (documented bound: 10 MiB)", opno, rec_len, l));
             }
 
             // ---- history-level oracle on intact, cleanly split groups (independent of the model's state)
